@@ -125,3 +125,39 @@ package alignment
 //@   loop 3 invariant forall k int, r int :: 0 <= k && k < i && 0 <= r && r < len(a) ==> s.Seq[old(len(s.Seq)) + k][r].L == (k < len(a[r]) ? a[r][k].L : gapOf(s.Alpha))
 //@   loop 3 invariant forall k int, r int :: 0 <= k && k < i && 0 <= r && r < len(a) && k < len(a[r]) ==> s.Seq[old(len(s.Seq)) + k][r].Q == a[r][k].Q
 //@   loop 3 writes fresh
+
+// Clone: a deep copy - columns and row annotations live in fresh storage, cell for cell equal.
+//@ func (*Seq).Clone
+//@   property C05 C07
+//@   requires wf(s)
+//@   ensures [fresh]   typeis(result, *Seq) && fresh(ref(result)) && len(result.(*Seq).Seq) == len(s.Seq) && fresh(result.(*Seq).Seq)
+//@   ensures [columns] forall c int :: 0 <= c && c < len(s.Seq) ==> (fresh(result.(*Seq).Seq[c]) || len(s.Seq[c]) == 0) && len(result.(*Seq).Seq[c]) == len(s.Seq[c])
+//@   ensures [cells]   forall c int, r int :: 0 <= c && c < len(s.Seq) && 0 <= r && r < len(s.Seq[c]) ==> result.(*Seq).Seq[c][r] == s.Seq[c][r]
+//@   ensures [annotations] len(result.(*Seq).SubAnnotations) == len(s.SubAnnotations) && (fresh(result.(*Seq).SubAnnotations) || len(s.SubAnnotations) == 0)
+//@   ensures [annotation-values] forall r int :: 0 <= r && r < len(s.SubAnnotations) ==> result.(*Seq).SubAnnotations[r] == s.SubAnnotations[r]
+//@   ensures [annot]   result.(*Seq).Annotation == s.Annotation
+//@   assigns fresh
+//@   loop 1 invariant 0 <= idx && idx <= len(s.Seq) && len(c.Seq) == len(s.Seq) && fresh(c.Seq)
+//@   loop 1 invariant forall k int :: 0 <= k && k < idx ==> (fresh(c.Seq[k]) || len(s.Seq[k]) == 0) && allocated(c.Seq[k]) && len(c.Seq[k]) == len(s.Seq[k])
+//@   loop 1 invariant forall k int, r int :: 0 <= k && k < idx && 0 <= r && r < len(s.Seq[k]) ==> c.Seq[k][r] == s.Seq[k][r]
+//@   loop 1 invariant c.Annotation == s.Annotation && len(c.SubAnnotations) == len(s.SubAnnotations) && (fresh(c.SubAnnotations) || len(s.SubAnnotations) == 0)
+//@   loop 1 invariant forall r int :: 0 <= r && r < len(s.SubAnnotations) ==> c.SubAnnotations[r] == s.SubAnnotations[r]
+//@   loop 1 writes fresh
+
+// Clone of a quality alignment.
+//@ func (*QSeq).Clone
+//@   property C05 C07
+//@   requires qwf(s)
+//@   ensures [fresh]   typeis(result, *QSeq) && fresh(ref(result)) && len(result.(*QSeq).Seq) == len(s.Seq) && fresh(result.(*QSeq).Seq)
+//@   ensures [columns] forall c int :: 0 <= c && c < len(s.Seq) ==> (fresh(result.(*QSeq).Seq[c]) || len(s.Seq[c]) == 0) && len(result.(*QSeq).Seq[c]) == len(s.Seq[c])
+//@   ensures [cells]   forall c int, r int :: 0 <= c && c < old(len(s.Seq)) && 0 <= r && r < len(old(s.Seq[c])) ==> result.(*QSeq).Seq[c][r] == old(s.Seq[c][r])
+//@   ensures [annotations] len(result.(*QSeq).SubAnnotations) == len(s.SubAnnotations) && (fresh(result.(*QSeq).SubAnnotations) || len(s.SubAnnotations) == 0)
+//@   ensures [annotation-values] forall r int :: 0 <= r && r < len(s.SubAnnotations) ==> result.(*QSeq).SubAnnotations[r] == s.SubAnnotations[r]
+//@   ensures [annot]   result.(*QSeq).Annotation == s.Annotation && result.(*QSeq).Threshold == s.Threshold && result.(*QSeq).Encode == s.Encode
+//@   assigns fresh
+//@   loop 1 invariant 0 <= idx && idx <= old(len(s.Seq)) && len(c.Seq) == old(len(s.Seq)) && fresh(c.Seq)
+//@   loop 1 invariant forall k int :: 0 <= k && k < idx ==> (fresh(c.Seq[k]) || len(old(s.Seq[k])) == 0) && allocated(c.Seq[k]) && len(c.Seq[k]) == len(old(s.Seq[k]))
+//@   loop 1 invariant forall k int, r int :: 0 <= k && k < idx && 0 <= r && r < len(old(s.Seq[k])) ==> c.Seq[k][r] == old(s.Seq[k][r])
+//@   loop 1 invariant c.Annotation == old(s.Annotation) && len(c.SubAnnotations) == old(len(s.SubAnnotations)) && (fresh(c.SubAnnotations) || old(len(s.SubAnnotations)) == 0)
+//@   loop 1 invariant forall r int :: 0 <= r && r < old(len(s.SubAnnotations)) ==> c.SubAnnotations[r] == old(s.SubAnnotations[r])
+//@   loop 1 writes fresh
